@@ -16,6 +16,7 @@ RULE = (
     "larger than the rows' own encoding, or a non-ASCII or empty name; afterwards the same object is changed in place (set_observed, Plate.merge), saved and loaded again. distinct = distinct case JSON."
     ' Also: supplied mappings numbered by hand (ids and entries in no particular order) in a third of the cases, and fixed cases in which the archive is written, read and re-written by separate interpreter processes with different string-hash salts.'
     ' Also: one lineage saved and loaded 800 (thorough 2500) times in a row; in the two-cycle cases every third write request of the save fails in turn with ENOSPC over an older archive (a save that returns normally must have saved).'
+    ' Occupied paths hold, in half of those cases, the signed-zero twin of the screen (equal under ==, other bit patterns).'
 )
 ASSUMPTIONS = [
     "0-row screens are excluded: Screen.save_h5 refuses them (TypeError from np.char.encode) - a refusal, not a lossy round trip",
@@ -221,6 +222,21 @@ def compare_screens(a, b, prefix, plate_mapping=True):
         require(S.mapping_equal(a.plate_mapping, b.plate_mapping), prefix + ".plate_mapping", "plate mapping changed")
 
 
+def _zero_twin(s, control):
+    """the same screen with the sign of every zero observation and zero dose flipped (equal under ==, different bit patterns);
+    None when the screen has no zero to flip"""
+    from batchie.data import Screen
+
+    ob, td = np.array(s.observations, dtype=float), np.array(s.treatment_doses, dtype=float)
+    if not (np.any(ob == 0) or np.any(td == 0)):
+        return None
+    ob2, td2 = np.where(ob == 0, -ob, ob), np.where(td == 0, -td, td)
+    try:
+        return Screen(treatment_names=np.array(s.treatment_names), treatment_doses=td2, observations=ob2, observation_mask=np.array(s.observation_mask), sample_names=np.array(s.sample_names), plate_names=np.array(s.plate_names), control_treatment_name=control)
+    except ValueError:
+        return None
+
+
 def _short_sibling(s, control):
     """another screen of exactly the same shapes (rows, arity, mapping sizes) whose names are all SHORTER: every distinct name is
     renamed to a one- or two-letter code (control name kept); what an output path may hold from an earlier, different run"""
@@ -297,10 +313,14 @@ def check_case(case):
             if k == 0 and case["superset"]:
                 own.save_h5(p)  # the path already holds another screen (same rows, its own smaller mappings): saving replaces it
             elif case.get("occupied") and "long" not in case:
-                try:
-                    sib = _short_sibling(cur, sc["control"])
-                except ValueError:
-                    sib = None  # (renaming collides with the control rule for this screen: no sibling)
+                sib = None
+                if (case["cycles"] + len(sc["rows"])) % 2 == 0 and not case.get("hand") and not synonym:
+                    sib = _zero_twin(cur, sc["control"])  # ... an archive that equals this screen under == and differs in bits (signs of zeros)
+                if sib is None:
+                    try:
+                        sib = _short_sibling(cur, sc["control"])
+                    except ValueError:
+                        sib = None  # (renaming collides with the control rule for this screen: no sibling)
                 if sib is not None:
                     sib.save_h5(p)  # ... or an archive of exactly the same shapes with shorter names
             cur.save_h5(p)
